@@ -228,10 +228,12 @@ def judge_exchanges(events):
     return None
 
 
-def judge_results(conf, results, server):
-    tasks, warm = conf
+def judge_results(conf, results, server, cancelled=None):
+    tasks, warm = conf[:2]
     for u, prog in enumerate(tasks):
         r = results[u]
+        if u == cancelled and r is not None and r[0] == "cancelled":
+            continue        # its own CancelledError is what it asked for
         if r is None or r[0] != "ok":
             return (f"user {u} completes its exchanges", "ok", r)
         for j, (kind, got) in enumerate(zip(prog, r[1]), 1):
@@ -291,8 +293,29 @@ def execute(ch, conf, lock_name, k=K):
     return out
 
 
+class Observed:
+    """delegates to the real lock and remembers which task is inside"""
+
+    def __init__(self, inner):
+        self.inner = inner
+        self.holder = None
+
+    async def __aenter__(self):
+        r = await self.inner.__aenter__()
+        self.holder = asyncio.current_task()
+        return r
+
+    async def __aexit__(self, *a):
+        self.holder = None
+        return await self.inner.__aexit__(*a)
+
+    def next_counter(self):
+        return self.inner.next_counter()
+
+
 def _execute(ch, conf, lock_name, k):
-    tasks, warm = conf
+    tasks, warm = conf[:2]
+    cancel_mode = len(conf) > 2 and conf[2]
     loop = vloop.VLoop()
     with loop:
         t, server, events = new_terminal(len(tasks), 11)
@@ -300,6 +323,9 @@ def _execute(ch, conf, lock_name, k):
         term = Terminal(m.ec)
         term.position = 11
         term.mbx_lock = LOCKS[lock_name](m.ec, 11)
+        if cancel_mode:
+            term.mbx_lock = Observed(term.mbx_lock)
+        cancelled = []      # [user, was it inside the lock]
         term.mbx_out_off, term.mbx_out_sz = OUT_OFF, OUT_SZ
         term.mbx_in_off, term.mbx_in_sz = IN_OFF, IN_SZ
 
@@ -316,7 +342,7 @@ def _execute(ch, conf, lock_name, k):
                            results=[("raise", type(e).__name__,
                                      "earlier exchange: " + str(e)[:60])
                                     if e else ("pending",)] * len(tasks),
-                           finished=False, frames=m.frames,
+                           finished=False, frames=m.frames, cancelled=None,
                            errors=[list(x) for x in server.protocol_errors])
                 raw = list(events)
                 loop.shutdown()
@@ -334,6 +360,16 @@ def _execute(ch, conf, lock_name, k):
             # a task starts at once unless the explorer holds it back (one
             # deviation) and releases it at a later idle point (another one)
             started = False
+            if cancel_mode and not cancelled:
+                # one task that has not completed may be cancelled (as a
+                # wait_for timeout would): a deviation
+                for u in range(len(tasks)):
+                    f = futs[u]
+                    if f is not None and not f.done() \
+                            and ch.choose(2, f"cancel{u}"):
+                        cancelled.extend([u, term.mbx_lock.holder is f])
+                        f.cancel()
+                        return True
             for u in range(len(tasks)):
                 if futs[u] is not None:
                     continue
@@ -366,6 +402,8 @@ def _execute(ch, conf, lock_name, k):
         for f in futs:
             if f is None or not f.done():
                 results.append(("pending",))
+            elif f.cancelled():
+                results.append(("cancelled",))
             elif f.exception() is not None:
                 results.append(("raise", type(f.exception()).__name__,
                                 str(f.exception())[:80]))
@@ -374,6 +412,7 @@ def _execute(ch, conf, lock_name, k):
         obs = dict(events=[(e[0],) + tuple(x.hex() for x in e[1:])
                            for e in events],
                    results=results, finished=finished,
+                   cancelled=list(cancelled) or None,
                    errors=[list(e) for e in server.protocol_errors],
                    frames=m.frames)
         raw = list(events)
@@ -381,15 +420,24 @@ def _execute(ch, conf, lock_name, k):
     return obs, raw, server
 
 
+def outside_precondition(obs):
+    """the cancelled task was inside the lock: its request may be on its way
+    or its response outstanding, which the next user cannot know"""
+    return bool(obs.get("cancelled")) and obs["cancelled"][1]
+
+
 def judge(conf, out):
     obs, raw, server = out
-    tasks, warm = conf
+    if outside_precondition(obs):
+        return None
     v = judge_events(raw)
     if v:
         return v
     if obs["errors"]:
         return ("terminal rejects a mail", [], obs["errors"])
-    return judge_results(conf, obs["results"], server)
+    c = obs.get("cancelled")
+    return judge_results(conf, obs["results"], server,
+                         cancelled=c[0] if c else None)
 
 
 # ------------------------------------------------------------------ driving
@@ -435,8 +483,13 @@ def work(item, res):
         if len(users) >= 2:
             res.nontrivial.add(core.digest([conf, lock_name, ch.choices]))
         v = judge(conf, out)
+        if outside_precondition(obs):
+            res.count("outside_precondition")
+        elif obs.get("cancelled"):
+            res.count("cancelled_while_waiting")
         res.outcomes.add((v[0] if v else "ok", len(obs["events"]) // 3,
-                          len(ch.describe())))
+                          len(ch.describe()),
+                          tuple(obs["cancelled"] or ())))
         if v:
             kf = None
             if lock_name == "ParallelMailboxLock" and obs["lock_overlap"] \
@@ -507,7 +560,9 @@ class Starved(Exception):
 
 class SimFuture:
     """stands in for asyncio.Future inside ebpfcat.ethercat: the datagram is
-    answered while EtherCat.roundtrip queues it, awaiting never suspends"""
+    answered while EtherCat.roundtrip queues it; awaiting it does not suspend,
+    except in a participant that runs several tasks (x_tasks): there the
+    task gives way once, as it would while its frame is on the wire"""
 
     def __init__(self):
         self._state = None
@@ -525,6 +580,9 @@ class SimFuture:
         if self._state is None:
             raise simos.SimBug("datagram future awaited before it was "
                                "answered")
+        rt = simos.current()
+        if rt.pid() in rt.params["yielding"]:
+            yield self
         ok, v = self._state
         if not ok:
             raise v
@@ -532,48 +590,60 @@ class SimFuture:
         yield       # noqa: a generator function
 
 
-class Shared:
-    """the one terminal all participants talk to"""
+class TermModel:
+    """one terminal: ESC + CoE server + what it saw"""
 
     def __init__(self, n_users, station, latency):
         self.t, self.server, self.events = new_terminal(n_users, station)
         self.station = station
         self.t.mbx_latency = lambda term: latency
+        self.ev_steps = []      # scheduler step at which events[i] happened
+
+    def digest(self):
+        t = self.t
+        return [[(a, d.hex()) for a, d in t.write_log],
+                [(e[0],) + tuple(x.hex() for x in e[1:])
+                 for e in self.events],
+                bytes(t.mem[0x800:0x810]).hex(), t._mbx_wait,
+                [m.hex() for m in t.mbx_out_queue]]
+
+
+class Shared:
+    """the terminal(s) all participants talk to"""
+
+    def __init__(self, n_users, stations, latency):
+        self.terms = [TermModel(n_users, st, latency) for st in stations]
+        self.by_station = {tm.station: tm for tm in self.terms}
         self.budget = latency + 3
         self.empty_polls = {}
-        self.ev_steps = []      # scheduler step at which events[i] happened
 
     def access(self, run, pid, cmd, pos, offset, out):
         """one datagram; -> returned data, None = working counter 0"""
+        tm = self.by_station.get(pos)
+        if tm is None:
+            return None
         try:
-            if pos != self.station:
-                return None
             if cmd is ecmod.ECCmd.FPRD:
-                data = self.t.read(offset, len(out))
+                data = tm.t.read(offset, len(out))
                 if data is not None and offset <= 0x80d < offset + len(out):
                     if data[0x80d - offset] & 8:
-                        self.empty_polls[pid] = 0
+                        self.empty_polls[pid, pos] = 0
                     else:
-                        n = self.empty_polls[pid] = \
-                            self.empty_polls.get(pid, 0) + 1
+                        n = self.empty_polls[pid, pos] = \
+                            self.empty_polls.get((pid, pos), 0) + 1
                         if n > self.budget:
                             raise Starved(f"no mail after {n} polls")
                 return data
             if cmd is ecmod.ECCmd.FPWR:
-                return out if self.t.write(offset, out) else None
+                return out if tm.t.write(offset, out) else None
             raise simos.SimBug(f"datagram {cmd} not modelled")
         finally:
-            while len(self.ev_steps) < len(self.events):
-                self.ev_steps.append(run.nsteps)
+            while len(tm.ev_steps) < len(tm.events):
+                tm.ev_steps.append(run.nsteps)
 
     def digest(self):
-        t = self.t
-        return core.digest([
-            [(a, d.hex()) for a, d in t.write_log],
-            [(e[0],) + tuple(x.hex() for x in e[1:]) for e in self.events],
-            bytes(t.mem[0x800:0x810]).hex(), t._mbx_wait,
-            [m.hex() for m in t.mbx_out_queue],
-            sorted(self.empty_polls.items())])
+        return core.digest([[tm.digest() for tm in self.terms],
+                            sorted(self.empty_polls.items())])
 
 
 class BusQueue:
@@ -590,7 +660,7 @@ class BusQueue:
         pid = rt.pid()
         try:
             data = rt.syscall(
-                "bus", (cmd.name, offset, bytes(out)),
+                "bus", (cmd.name, pos, offset, bytes(out)),
                 lambda: self.shared.access(rt, pid, cmd, pos, offset,
                                            bytes(out)))
         except Starved as e:
@@ -622,30 +692,88 @@ def _where(e):
     return out
 
 
+def x_plan(progs):
+    """progs[u] is either the exchanges of a participant with one task on
+    terminal 0 ('rw', ['r', 'w']) or a list of [terminal, exchanges] pairs,
+    one per task.  -> [[(terminal, kinds, user number), ...] per participant]
+    users are numbered in this order"""
+    plan, n = [], 0
+    for p in progs:
+        multi = len(p) > 0 and not isinstance(p, str) \
+            and not isinstance(p[0], str)
+        tasks = [(t, tuple(k)) for t, k in p] if multi else [(0, tuple(p))]
+        plan.append([(t, k, n + i) for i, (t, k) in enumerate(tasks)])
+        n += len(tasks)
+    return plan
+
+
+def x_tasks(coros, failed):
+    """the tasks of one process: task i+1 is started when task i waits for
+    its first datagram, and completes before task i goes on (the schedule an
+    event loop produces when the first task's frame is slow)"""
+    results = [None] * len(coros)
+
+    def run(i):
+        first = True
+        while True:
+            try:
+                coros[i].send(None)
+            except StopIteration as stop:
+                results[i] = ["ok", stop.value]
+                return
+            except Exception as e:
+                results[i] = failed(e)
+                return
+            if first and i + 1 < len(coros):
+                run(i + 1)
+            first = False
+    try:
+        run(0)
+    except BaseException:       # killed / abandoned: unwind in this context
+        for c in coros:
+            try:
+                c.close()
+            except BaseException:
+                pass
+        raise
+    return results
+
+
 def x_body(rt):
     prm = rt.params
-    u = rt.pid()
+    mine = prm["plan"][rt.pid()]
     sh = prm["shared"]
+
+    def failed(e):
+        return ["raise", type(e).__name__, _where(e), str(e)[:80]]
     try:
         ec = ecat_mod.ParallelEtherCat(X_IF)
         ec.terminal_addr_range = X_RANGE
         ec.send_queue = BusQueue(sh)
-        if prm["how"][u] == "unpickle":
+        if prm["how"][rt.pid()] == "unpickle":
             # a spawned child receives the pickled LockFile: __setstate__
             ec.mbx_lock_file = pickle.loads(prm["blob"])
         else:
             # the statement in ParallelEtherCat.run that creates it
             ec.mbx_lock_file = lock_mod.LockFile(
                 f'/run/ebpf/{ec.addr[0]}', *ec.terminal_addr_range)
-        term = Terminal(ec)
-        term.position = sh.station
-        # as Terminal.initialize / gentle_initialize do
-        term.mbx_lock = ec.get_mbx_lock(term.position)
-        term.mbx_out_off, term.mbx_out_sz = OUT_OFF, OUT_SZ
-        term.mbx_in_off, term.mbx_in_sz = IN_OFF, IN_SZ
-        return ["ok", simos.drive(program(term, u, prm["progs"][u]))]
+        coros = []
+        for t, kinds, user in mine:
+            term = Terminal(ec)
+            term.position = sh.terms[t].station
+            # as Terminal.initialize / gentle_initialize do
+            term.mbx_lock = ec.get_mbx_lock(term.position)
+            term.mbx_out_off, term.mbx_out_sz = OUT_OFF, OUT_SZ
+            term.mbx_in_off, term.mbx_in_sz = IN_OFF, IN_SZ
+            coros.append(program(term, user, kinds))
     except Exception as e:
-        return ["raise", type(e).__name__, _where(e), str(e)[:80]]
+        return [failed(e)] * len(mine)
+    if len(coros) == 1:
+        try:
+            return [["ok", simos.drive(coros[0])]]
+        except Exception as e:
+            return [failed(e)]
+    return x_tasks(coros, failed)
 
 
 def _good(ev):
@@ -703,33 +831,37 @@ def x_monitor(run):
     prm = run.params
     sh = prm["shared"]
     out = []
-    void = _void_users(run)
+    void = _void_users(run)         # only in spaces where user == process
+    any_void = False
 
     def is_void(e, st):
         return e[0] == "in" and message_user(e[1]) in void \
             and st > void[message_user(e[1])]
-    if any(is_void(e, st) for e, st in zip(sh.events, sh.ev_steps)):
-        # a participant crashed inside an exchange after sending mail: that
-        # exchange is void; only the counters of the other mails are judged
-        v = judge_counters([e for e, st in zip(sh.events, sh.ev_steps)
-                            if not is_void(e, st)])
-    else:
-        void = {}
-        v = judge_events(sh.events)
-    if v:
-        out.append(dict(inv="exchange", kind=v[0], who=[],
-                        expected=v[1], observed=v[2]))
-    # every byte of the lock file except the terminal's own keeps its value
+    for k, tm in enumerate(sh.terms):
+        if any(is_void(e, st) for e, st in zip(tm.events, tm.ev_steps)):
+            # a participant crashed inside an exchange after sending mail:
+            # that exchange is void; only the counters of the other mails
+            # are judged
+            any_void = True
+            v = judge_counters([e for e, st in zip(tm.events, tm.ev_steps)
+                                if not is_void(e, st)])
+        else:
+            v = judge_events(tm.events)
+        if v:
+            out.append(dict(inv="exchange", kind=v[0], who=[],
+                            expected=v[1], observed=v[2],
+                            note=f"terminal {k} (station {tm.station})"))
+    # every byte of the lock file except the terminals' own keeps its value
     node = None
     try:
         node = run.world._walk(X_LOCKFILE)[2]
     except OSError:
         pass
     if node is not None:
-        own = sh.station - X_RANGE[0]
+        own = {tm.station - X_RANGE[0] for tm in sh.terms}
         init = prm["content"] or bytes(X_RANGE[1] - X_RANGE[0])
         bad = [i for i, b in enumerate(node.data)
-               if i != own and (i >= len(init) or b != init[i])]
+               if i not in own and (i >= len(init) or b != init[i])]
         if bad:
             out.append(dict(inv="neighbours", kind="counter of another "
                             "terminal changed", who=[],
@@ -742,10 +874,11 @@ def x_monitor(run):
             if o is not None and o[0] == "exc":
                 raise core.Internal(f"participant body raised {o}")
             continue
-        val = o[1]
-        if val[0] == "raise":
+        for val in o[1]:
+            if val[0] != "raise":
+                continue
             inlock = val[2].startswith("lock.py")
-            if void and not inlock:
+            if any_void and not inlock:
                 continue    # consequence of the crashed participant's mail
             out.append(dict(
                 inv="participant", who=[p.pid],
@@ -759,14 +892,22 @@ def x_monitor(run):
                 else None))
     if run.terminal() and not out and not any(
             p.status == "crashed" for p in run.procs):
-        results = [tuple(p.outcome[1]) for p in run.procs]
-        v = judge_results((prm["progs"], 0), results, sh.server)
-        if v is None and sh.server.protocol_errors:
-            v = ("terminal rejects a mail", [],
-                 [list(e) for e in sh.server.protocol_errors])
-        if v:
-            out.append(dict(inv="results", kind=v[0], who=[], expected=v[1],
-                            observed=v[2]))
+        n = sum(len(m) for m in prm["plan"])
+        for p in run.procs:
+            for (t, kinds, user), val in zip(prm["plan"][p.pid],
+                                             p.outcome[1]):
+                tasks = [()] * n
+                tasks[user] = kinds
+                results = [("ok", [])] * n
+                results[user] = tuple(val)
+                server = sh.terms[t].server
+                v = judge_results((tasks, 0), results, server)
+                if v is None and server.protocol_errors:
+                    v = ("terminal rejects a mail", [],
+                         [list(e) for e in server.protocol_errors])
+                if v:
+                    out.append(dict(inv="results", kind=v[0], who=[p.pid],
+                                    expected=v[1], observed=v[2]))
     return out
 
 
@@ -783,20 +924,30 @@ def x_describe(run):
 
 def x_space(name, progs, how, initial, latency, preempt, crashes, seed,
             cap=None):
-    """progs[u]: exchanges of participant u; how[u]: 'init' | 'unpickle';
-    initial: None (no lock file yet) or the counter an earlier session left
-    in the file; latency: polls before the terminal answers"""
-    station = X_RANGE[0] + (5 + seed) % (X_RANGE[1] - X_RANGE[0])
-    progs = tuple(tuple(p) for p in progs)
+    """progs[u]: exchanges of participant u (see x_plan); how[u]: 'init' |
+    'unpickle'; initial: None (no lock file yet) or the counter an earlier
+    session left in the file; latency: polls before a terminal answers"""
+    size = X_RANGE[1] - X_RANGE[0]
+    plan = x_plan(progs)
+    n_users = sum(len(m) for m in plan)
+    n_terms = 1 + max(t for m in plan for t, _, _ in m)
+    stations = [X_RANGE[0] + (5 + seed + 3 * k) % size
+                for k in range(n_terms)]
+    station = stations[0]
+    if crashes and n_users != len(plan):
+        raise core.Internal("crash spaces need one task per participant")
+    progs = [[[t, "".join(k)] for t, k, _ in m] if len(m) > 1
+             or m[0][0] else list(m[0][1]) for m in plan]
     content = None
     if initial is not None:
         content = bytearray((i + seed) % 7 + 1
                             for i in range(X_RANGE[1] - X_RANGE[0]))
-        content[station - X_RANGE[0]] = initial
+        for st in stations:
+            content[st - X_RANGE[0]] = initial
         content = bytes(content)
     params = dict(progs=progs, how=list(how), initial=initial,
                   latency=latency, preempt=preempt, crashes=crashes,
-                  seed=seed, station=station)
+                  seed=seed, station=station, stations=stations)
     lf = lock_mod.LockFile.__new__(lock_mod.LockFile)
     lf.filename, lf.minimum, lf.maximum = X_LOCKFILE, *X_RANGE
     blob = pickle.dumps(lf)
@@ -808,10 +959,12 @@ def x_space(name, progs, how, initial, latency, preempt, crashes, seed,
             fd = w.open(9, X_LOCKFILE, os.O_CREAT | os.O_RDWR)
             w.write(9, fd, content)
             w.exit_process(9)
-        sh = Shared(len(progs), station, latency)
-        return XRun(w, [x_body] * len(progs),
-                    params=dict(shared=sh, progs=progs, how=list(how),
-                                blob=blob, content=content))
+        sh = Shared(n_users, stations, latency)
+        return XRun(w, [x_body] * len(plan),
+                    params=dict(shared=sh, plan=plan, how=list(how),
+                                blob=blob, content=content,
+                                yielding={u for u, m in enumerate(plan)
+                                          if len(m) > 1}))
     return simos.Space(name, factory, x_monitor, preempt=preempt,
                        crashes=crashes, params=params, describe=x_describe,
                        state_cap=cap)
@@ -829,7 +982,11 @@ def x_spaces(ctx):
         sp = [x_space("x2-fresh-1ex", ["r", "w"], [I, I], None, 0, None, 0,
                       s),
               x_space("x2-existing7-1ex", ["o", "r"], [I, U], 7, 1, None, 0,
-                      s)]
+                      s),
+              # process 0 talks to two terminals from two tasks (the second
+              # exchange runs inside the first), process 1 to one of them
+              x_space("x2-two-terminals", [[[1, "r"], [0, "w"]], [[1, "o"]]],
+                      [I, I], None, 0, None, 0, s)]
     else:
         sp = [x_space("x2-fresh-2ex", ["rw", "or"], [I, I], None, 1, None,
                       0, s),
@@ -842,7 +999,13 @@ def x_spaces(ctx):
               x_space("x3-fresh-1ex", ["r", "w", "o"], [I, I, U], None, 0,
                       None, 0, s),
               x_space("x3-existing-1ex-preempt2-crash1", ["r", "w", "r"],
-                      [I, U, I], 1 + (4 + s) % 7, 0, 2, 1, s)]
+                      [I, U, I], 1 + (4 + s) % 7, 0, 2, 1, s),
+              x_space("x2-two-terminals-2ex",
+                      [[[1, "rw"], [0, "wo"]], [[1, "or"]]], [I, U], 6, 1,
+                      None, 0, s),
+              x_space("x3-two-terminals",
+                      [[[1, "r"], [0, "w"]], [[1, "o"]], [[0, "r"]]],
+                      [I, I, I], None, 0, None, 0, s)]
     only = os.environ.get("C15_SPACES")       # development aid
     if only:
         sp = [x for x in sp if x.name in only.split(",")]
@@ -894,7 +1057,9 @@ def run_cross(ctx, res):
         res.cov["crossprocess_bound_completed"] = {
             sp.name: dict(
                 participants=len(sp.params["progs"]),
-                exchanges=["".join(p) for p in sp.params["progs"]],
+                exchanges=[p if p and isinstance(p[0], list) else "".join(p)
+                           for p in sp.params["progs"]],
+                terminals=len(sp.params["stations"]),
                 lock_file=("created by the participants"
                            if sp.params["initial"] is None else
                            f"exists, counter {sp.params['initial']}"),
@@ -925,6 +1090,17 @@ def run(ctx):
             for warm in warms:
                 b = bound if len(tasks) == 2 or ctx.quick else bound - 1
                 items.append(((tasks, warm), lock_name, b, cap))
+        # a task that has not completed may be cancelled (one more kind of
+        # deviation, so these configurations are enumerated separately)
+        R, W, O = ("r",), ("w",), ("o",)
+        cconfs = [((R, W, O), 0), ((("r", "w"), O), 6)]
+        if not ctx.quick:
+            cconfs += [((R, R, R), 6), ((W, O, R), 0), ((("o",), ("r", "w")),
+                                                      0),
+                       ((("w", "r"), ("r", "o")), 0)]
+        for tasks, warm in cconfs:
+            items.append(((tasks, warm, True), lock_name,
+                          1 if ctx.quick else 2, cap))
     probe = ((("r", "w"), ("o",)), 6)
     a = execute(explore.Chooser((0, 1, 1, 2)), probe, "MailboxLock")[0]
     b = execute(explore.Chooser((0, 1, 1, 2)), probe, "MailboxLock")[0]
@@ -985,6 +1161,19 @@ def run(ctx):
         "an exchange is open from the request until its response has been "
         "fetched from the read mailbox; responses fit one mail",
         "frames are not lost; response latency <= 2 polls",
+        "in-process cancellation (separate configurations, at most one per "
+        "execution, one deviation): any started, unfinished task may be "
+        "cancelled at a loop-idle point; the cancelled task's own "
+        "CancelledError is accepted, every other user must still get its "
+        "own result and the counter chain / exclusion must hold.  If the "
+        "cancelled task was inside the lock (its request may be on the wire "
+        "or its response outstanding, which no later user can know) the "
+        "execution is counted as outside_precondition and not judged",
+        "cross-process, several terminals: a participant with two tasks "
+        "runs them in one fixed order an event loop can produce (task 2 "
+        "starts when task 1 waits for its first datagram, i.e. after it "
+        "took its lock, and completes before task 1 goes on); all "
+        "interleavings with the other processes are explored",
         "3 tasks: bound reduced by one in thorough; quick: 3 tasks do one "
         "exchange each"]
     return res
@@ -1016,7 +1205,7 @@ def replay(ctx, rep):
         return replay_cross(ctx, rep)
     res = core.Result()
     c = rep["case"]
-    conf = (tuple(tuple(p) for p in c["conf"][0]), c["conf"][1])
+    conf = (tuple(tuple(p) for p in c["conf"][0]),) + tuple(c["conf"][1:])
     out = execute(explore.Chooser(tuple(c["choices"])), conf, c["lock"])
     for e in out[0]["events"]:
         print("  ", e[0], (e[1][:44] if len(e) > 1 else ""))
